@@ -23,6 +23,8 @@ def names_in(n):
             out.add(x['name'])
         elif k == 'DeclRefExpr':
             out.add(x.get('referencedDecl', {}).get('name'))
+        elif k == 'VarDecl' and x.get('name'):
+            out.add(x['name'])
     return out
 
 
